@@ -6,8 +6,8 @@ from ..strategies import sample_cases, sim_cases
 from ._sim_common import frac, summarize
 
 ID = "C10"
-RULE = ("Configurations as for C05 run with a recording Logger subclass (write / bulk_write / write_and_direct_process / "
-        "process all recorded). Ground truth: the Order / Cancel objects the (scripted and traced built-in) agents returned, "
+RULE = ("Configurations as for C05 run with a recording Logger subclass (write / bulk_write / write_and_direct_process and "
+        "every process_*_log handler recorded; Logger.process itself is pams' own, so the handlers see what a user's logger would see: each record through the handler of its type, in the order it was handed over). Ground truth: the Order / Cancel objects the (scripted and traced built-in) agents returned, "
         "their final volumes, the markets' per-step executed volume and turnover, and a lifetime model for expiries. "
         "Checked: exactly one OrderLog / CancelLog per accepted order / cancel with equal fields, fill records whose per-order "
         "sums equal the volume each order lost and whose per-step sums equal the market statistics, one ExpirationLog per "
@@ -27,7 +27,7 @@ def check_case(case):
 
 def _strategy(tier):
     big = tier == "thorough"
-    return sim_cases(builtin=True, steps=(1, 20) if big else (1, 8), agents_per_group=(1, 5))
+    return sim_cases(builtin=True, steps=(1, 20) if big else (1, 8), agents_per_group=(1, 5), rules=True)
 
 
 PARTS = {"sim": {"check": check_case, "strategy": _strategy, "budget": {"quick": 3000, "thorough": 40000}}}
